@@ -408,6 +408,8 @@ def save_scsv(file, schema, data, **kwargs):
 
     """
     path = resolve_path(file)
+    if len(data) == 0:
+        raise _err.SCSVError("refusing to write SCSV file without any data columns")
     n_rows = len(data[0])
     for col in data[1:]:
         if len(col) != n_rows:
